@@ -284,6 +284,20 @@ static Input random_linkage(Rng& g) {
   in.dmax = 0;
   in.t = -1;
   in.p = pick<unsigned>(g, {2u, 3u});
+  if (rnd(g, 0, 1) == 0) {
+    // perfectly balanced dendrogram on 16, 32 or 64 points, every merge joining the last vertices of two clusters
+    // (lengths 1, 2, ... in merge order), then the pair (0, n-1) closing a cycle, every other pair longer: under union by
+    // rank the first vertex ends up at depth log2(n)
+    const int N = pick<int>(g, {16, 32, 64});
+    in.n = N;
+    std::map<std::pair<int, int>, std::int64_t> w;
+    std::int64_t len = 1;
+    for (int step = 1; step < N; step *= 2)
+      for (int i = step - 1; i + step < N; i += 2 * step) w[{i, i + step}] = len++;
+    w[{0, N - 1}] = N + 4;
+    all_pairs(in, [&](int a, int b) { auto it = w.find({a, b}); return it != w.end() ? it->second : static_cast<std::int64_t>(2 * N + rnd(g, 0, 2)); });
+    return in;
+  }
   std::vector<int> label(static_cast<std::size_t>(in.n));
   for (int i = 0; i < in.n; ++i) label[static_cast<std::size_t>(i)] = i;
   for (int i = in.n - 1; i > 0; --i) std::swap(label[static_cast<std::size_t>(i)], label[static_cast<std::size_t>(rnd(g, 0, i))]);
